@@ -62,7 +62,9 @@ def run_c01(ck, ctx):
     n = 14 if tier == 'quick' else 400
     jobs = []
     for i in range(n):
-        if i % 5 == 4:   # packet counts around the batch size
+        if i == 2:       # one long link: several hundred packets on one link, HBFs of many different page counts
+            pk, meta = G.conforming_stream(R, nlinks=R.randint(1, 2), min_hbf=90, max_hbf=130, hits=False)
+        elif i % 5 == 4:   # packet counts around the batch size
             pk, meta = G.conforming_stream(R, nlinks=R.randint(1, 3), max_hbf=R.choice([12, 25]), hits=False)
             tgt = R.choice([99, 100, 101, 200])
             if len(pk) >= tgt:
@@ -333,18 +335,29 @@ def run_c02(ck, ctx):
                 for m in MODES:
                     active = (not its_only or m[1] is not None) and (not running_only or m[0] == 'all')
                     jobs.append((si, name, m, off, codes, active, running_only, data, meta))
+    # a third of the runs also carry a custom-checks file whose expectations are all met (the stream's own RDH
+    # version): configuring an unrelated check must not switch a documented rule off
+    cver = {}
+    wd = os.path.join(L.CACHE, 'tmp', f'c02_{os.getpid()}'); os.makedirs(wd, exist_ok=True)
+    for ji, j in enumerate(jobs):
+        if ji % 3 == 0 and j[8]['ver'] != 'mixed' and j[1] != 'rdh_version':
+            cver[ji] = j[8]['ver']
+            open(os.path.join(wd, f'v{j[8]["ver"]}.toml'), 'w').write(f'rdh_version = {j[8]["ver"]}\n')
 
-    def job(j):
-        si, name, m, off, codes, active, running_only, data, meta = j
-        return L.run_cli(mode_args(m) + ['-E', '7'], data)
-    res = L.pmap(job, jobs)
+    def job(ji):
+        si, name, m, off, codes, active, running_only, data, meta = jobs[ji]
+        extra = ['-c', os.path.join(wd, f'v{cver[ji]}.toml')] if ji in cver else []
+        return L.run_cli(mode_args(m) + ['-E', '7'] + extra, data)
+    res = L.pmap(job, list(range(len(jobs))))
+    shutil.rmtree(wd, ignore_errors=True)
     reqs = []
     RUNNING_CODES = {'E11', 'E12', 'E110', 'E111', 'E41', 'E42', 'E44', 'E440', 'E441', 'E442', 'E443', 'E444', 'E445', 'E45', 'E71', 'E72', 'E73', 'E81'}
-    for j, r in zip(jobs, res):
+    for ji, (j, r) in enumerate(zip(jobs, res)):
         si, name, m, off, codes, active, running_only, data, meta = j
         ck.case((si, name, m))
         ck.count('fault_' + name)
-        reqs.append(f'run {mode_tok(m)} E=7 data={G.hexs(data)}')
+        if ji in cver: ck.count('with_custom_rdh_version')
+        reqs.append(f'run {mode_tok(m)} E=7' + (f' ver={cver[ji]}' if ji in cver else '') + f' data={G.hexs(data)}')
         if r.exit not in (0, 7) or r.stats is None:
             key = 'stave-layer-or-alpide-panic' if m[1] == 'stave' and r.exit not in (0, 1, 7) else None
             ck.violation('abnormal', {'what': 'faulted stream: abnormal termination', 'fault': name, 'args': mode_args(m), 'exit': r.exit,
@@ -355,7 +368,7 @@ def run_c02(ck, ctx):
             hit = [e for e in errs if e[0] == off and e[1] in codes]
             if not hit or r.exit != 7:
                 ck.violation('undetected', {'what': 'documented violation not reported with its code family at the offending offset (or exit status not the any-errors code)',
-                                            'fault': name, 'args': mode_args(m) + ['-E', '7'], 'expected_offset': off, 'expected_codes': sorted(codes),
+                                            'fault': name, 'args': mode_args(m) + ['-E', '7'] + (['-c', '<file with: rdh_version = %s>' % cver[ji]] if ji in cver else []), 'expected_offset': off, 'expected_codes': sorted(codes),
                                             'errors_at_offset': [e for e in errs if e[0] == off][:6], 'all_errors': errs[:10], 'exit': r.exit, 'meta': meta, 'input_hex': data.hex()})
         if m[0] == 'sanity':
             bad = [e for e in errs if e[1] in RUNNING_CODES and not (e[1] in ('E72', 'E73') and m[1] == 'stave')]
